@@ -11,7 +11,7 @@ import shutil
 from checks import merge_common as mc
 from vlib import core
 
-THEOREMS = ["C19_normal_form", "C19_fields", "C19_reject_iff", "C19_paths", "C19_not_found", "C19_old_refuted"]
+THEOREMS = ["C19_normal_form", "C19_fields", "C19_reject_iff", "C19_paths", "C19_not_found", "C19_spec", "C19_old_refuted"]
 PROPS = "theories/Props/C19.v"
 REGISTRY = {
     "level": "proof",
